@@ -4,3 +4,5 @@ import IgVerif.Model.Scope
 import IgVerif.Props.C06
 import IgVerif.Lemmas.Traits
 import IgVerif.Props.C10
+import IgVerif.Model.Scan
+import IgVerif.Props.C15
